@@ -139,7 +139,9 @@ func yamlTranslateNode(node *yaml.Node) (any, error) {
 		case "!!null":
 			return nil, nil
 
-		case "!!str", "!!timestamp":
+		case "!!str", "!!timestamp", "!!merge":
+			// A plain << in value position is just a string (yaml.v3 writes
+			// the string "<<" unquoted and tags it !!merge when reading).
 			return node.Value, nil
 
 		default:
